@@ -66,6 +66,14 @@ let eval fn args : string option =
     let (es, _) = parse_entries rest in
     let (st, c) = inject (bytes_of_hex img) es (z_of_hex off) in
     Some ("ok " ^ hex_of_z c ^ " " ^ hex_of_bytes st)
+  | "wtable", img :: count :: rest ->
+    let n = int_of_z (z_of_hex count) in
+    let rec go k l acc =
+      if k = 0 then List.rev acc
+      else let (h, r) = parse_hdr l in go (k - 1) r (h :: acc) in
+    let hs = go n rest [] in
+    Some (obs_outcome (fun (st, c) -> "ok " ^ hex_of_z c ^ " " ^ hex_of_bytes st)
+            (write_table (bytes_of_hex img) hs))
   | "recalc", _ ->
     let (es, _) = parse_entries args in
     Some (obs_outcome (show_list show_entry) (recalc es))
